@@ -155,6 +155,24 @@ impl Arch {
         }
     }
 
+    /// Serialise behind `prefix` bytes that are already in the stream; returns the bytes from the start position on.
+    pub fn save_behind(self, prefix: usize) -> std::io::Result<Vec<u8>> {
+        match self {
+            Arch::S(pm) => {
+                let mut out = Cursor::new(vec![0x11u8; prefix]);
+                out.set_position(prefix as u64);
+                pm.to_writer(&mut out)?;
+                Ok(out.into_inner().split_off(prefix))
+            }
+            Arch::A(pm) => {
+                let mut out = futures::io::Cursor::new(vec![0x11u8; prefix]);
+                out.set_position(prefix as u64);
+                block_on(pm.to_async_writer(&mut out))?;
+                Ok(out.into_inner().split_off(prefix))
+            }
+        }
+    }
+
     /// Serialise (consumes the archive) with whatever writer its reader type supports.
     pub fn save(self) -> std::io::Result<Vec<u8>> {
         match self {
